@@ -87,6 +87,11 @@ class _Cexptrk_Potential_Function(object):
         except cexprtk.ParseException as pe:
           raise Potential_Form_Exception("mathematical expression couldn't be parsed {}".format(pe))
       retval = self._expression()
+      if retval != retval:
+        # The expression language does not raise when a formula leaves its domain (sqrt or log of a negative
+        # number, 0/0): it evaluates to nan. Report it, as the pymath functions do, rather than tabulate nan.
+        raise Potential_Form_Exception("mathematical expression is not defined (evaluates to nan) for the arguments ({})".format(
+          ", ".join(["{}={}".format(pn, v) for (pn, v) in zip(parameter_names, args)])))
       return retval
     except Potential_Form_Exception as e:
       msg = e.args[0]
